@@ -25,6 +25,8 @@ BUILTIN = {'objects': ['malware', 'identity', 'relationship', 'marking-definitio
 INVALID = ['X-upper', 'x-Upper', 'x_under', 'x-é', '   ', 'ab', 'x', 'a' * 251, 'x-sim a', 'x.sim', '']
 EITHER = ['9-lead', '-lead', 'x--double', 'trail-']          # rules I could not confirm offline: either outcome accepted
 
+# names that end in _ref: one underscore, several, a leading custom prefix, 'ref' also inside the name
+REF_NAMES = ['thing_ref', 'x_owner_host_ref', 'dst_host_ref', 'a_b_c_ref', 'ref_ref', 'my_ref_thing_ref', 'x_ref']
 PROPSETS = ['legal', 'legal2', 'legal_ref', 'legal_names', 'bad_digit', 'bad_upper_first', 'bad_hyphen', 'bad_short', 'bad_upper_inside',
             'bad_space', 'bad_dot', 'bad_long', 'bad_nonascii', 'ref_nonref', 'refs_nonref', 'empty']
 # rule-breaking 2.1 property names, with prefixes that are themselves legal names (id, type, name, created ...)
@@ -164,10 +166,16 @@ class C19(Profile):
             return base + [('count', IntegerProperty())], 'legal'
         if ps == 'legal2':
             return base + [('tags', ListProperty(StringProperty)), ('x_note', StringProperty())], 'legal'
+        ref_name = REF_NAMES[op['a'] % len(REF_NAMES)]
+        obs20 = kind == 'observable' and ver == '2.0'
         if ps == 'legal_ref':
-            if kind == 'observable' and ver == '2.0':
-                return base + [('thing_ref', ObjectReferenceProperty(valid_types='file'))], 'legal'
-            return base + [('thing_ref', ReferenceProperty(valid_types='identity', spec_version=ver))], 'legal'
+            if op['a'] % 3 == 2:
+                # a reference LIST under a *_refs name
+                inner = ObjectReferenceProperty(valid_types='file') if obs20 else ReferenceProperty(valid_types='identity', spec_version=ver)
+                return base + [(ref_name + 's', ListProperty(inner))], 'legal'
+            if obs20:
+                return base + [(ref_name, ObjectReferenceProperty(valid_types='file'))], 'legal'
+            return base + [(ref_name, ReferenceProperty(valid_types='identity', spec_version=ver))], 'legal'
         if ps == 'legal_names':
             return base + [(LEGAL_NAMES[op['a'] % len(LEGAL_NAMES)], IntegerProperty())], 'legal'
         if ps in BAD_NAMES:
@@ -178,9 +186,17 @@ class C19(Profile):
                 cls_ = 'bad21-prefix'
             return base + [(name, IntegerProperty())], cls_
         if ps == 'ref_nonref':
-            return base + [('thing_ref', StringProperty())], 'ref-nonref'
+            # named like a reference, implemented by something else - incl. the reference class of the OTHER observable generation
+            wrong = [StringProperty(), IntegerProperty(),
+                     ReferenceProperty(valid_types='identity', spec_version='2.1') if obs20 else ObjectReferenceProperty(valid_types='file'),
+                     ListProperty(StringProperty)][op['a'] // len(REF_NAMES) % 4]
+            return base + [(ref_name, wrong)], 'ref-nonref'
         if ps == 'refs_nonref':
-            return base + [('thing_refs', ListProperty(StringProperty))], 'ref-nonref'
+            wrong = [ListProperty(StringProperty), StringProperty(),
+                     ListProperty(ReferenceProperty(valid_types='identity', spec_version='2.1') if obs20 else ObjectReferenceProperty(valid_types='file')),
+                     ReferenceProperty(valid_types='identity', spec_version='2.1') if not obs20 else ObjectReferenceProperty(valid_types='file'),
+                     ][op['a'] // len(REF_NAMES) % 4]
+            return base + [(ref_name + 's', wrong)], 'ref-nonref'
         return [], 'empty'
 
     def taken(self, ver, kind, name):
